@@ -204,5 +204,45 @@ def check_C17(tier):
                 a = second.snapshot.get(p)
                 if not a or a["sha"] != v["sha"] or a["ino"] != v["ino"]:
                     chk.violation("re-run modified the consumer's output %s" % p, dict(instance=inst))
+    # the same history for a producer that also has a regular out-port: on the second run producer AND consumer are skipped
+    inst = stream_inst(2, 4, 1000, extra_outs=("copy",))
+    h = fs.History(inst, [("run", None), ("run", None)], label="complete streaming run (producer with a regular out-port too), run again"); h.accept = False
+    h.exp = None
+    fs.run_history(h, timeout=15)
+    chk.evaluations += 2
+    first, second = h.runs[0], h.runs[-1]
+    if first.rc != 0 or not first.completed:
+        chk.undecided.append("streaming run with a further regular out-port failed: %s" % first.stderr[-200:])
+    elif second.timeout or second.deadlock or second.rc != 0 or not second.completed:
+        chk.violation("re-running a completed streaming workflow whose producer also has a regular out-port does not terminate normally (%s)"
+                      % ("hangs" if (second.timeout or second.deadlock) else "rc=%s %s" % (second.rc, second.stderr[-160:].replace("\n", " | "))), dict(instance=inst))
+    else:
+        for p, v in first.snapshot.items():
+            if p.startswith("o/") and p.endswith(".txt"):
+                a = second.snapshot.get(p)
+                if not a or a["sha"] != v["sha"] or a["ino"] != v["ino"]:
+                    chk.violation("re-run modified %s" % p, dict(instance=inst))
+        left = [p for p in second.snapshot if p.endswith(".fifo") or os.path.basename(p).startswith("_scipipe_tmp")]
+        if left: chk.violation("re-run left a pipe / temp dir behind: %s" % left[:3], dict(instance=inst))
+        chk.nontrivial.add("rerun:multi-out producer")
+    # heavy producer, light consumer: CoresPerTask(producer) + CoresPerTask(consumer) slots suffice for one pair
+    for pc, cc, mx in ((2, 1, 3), (4, 1, 6), (3, 2, 5)):
+        inst = stream_inst(1, mx, 1000); inst["name"] = "STCORES"
+        for pr in inst["procs"]:
+            if pr["name"] == "p": pr["cores"] = pc
+            if pr["name"] == "c": pr["cores"] = cc
+        r = fc.closed_model(inst, liveness=True, workers=2, timeout=120)
+        if r.error: chk.undecided.append("Flow.tla streaming with cores %d/%d on %d slots: %s" % (pc, cc, mx, r.error[-160:]))
+        else:
+            chk.add_tlc(r)
+            if not r.ok: chk.undecided.append("Flow.tla: streaming pair with cores %d/%d dead-locks on %d slots in the model" % (pc, cc, mx))
+        rr = fc.real_runs(inst, [dict(env={}, bufsize=4, timeout=30)])[0]
+        chk.evaluations += 1
+        cpath, want, _ = expected_consumer("1", 1000)
+        if rr.timeout or rr.deadlock or rr.rc != 0 or not rr.completed or rr.snapshot.get(cpath, {}).get("text") != want:
+            chk.violation("streaming pair with producer CoresPerTask=%d, consumer CoresPerTask=%d on %d slots (both fit together) did not complete: rc=%s %s"
+                          % (pc, cc, mx, rr.rc, rr.stderr[-160:].replace("\n", " | ")), dict(instance=inst))
+        else:
+            chk.nontrivial.add("stream-cores:%d/%d/%d" % (pc, cc, mx))
     chk.extra["model_counterexamples"] = dict(F10_audit_link=model_f10, F5_rerun=model_f5)
     return chk.finish()
